@@ -434,6 +434,109 @@ def gen_combined_diff(rng, conflict=None):
     return lines, [f]
 
 
+# --- combined diffs with the file-section header lines git emits (session 4, strengthening of C01) ----------------
+#
+# `git show` / `git log -p --cc|-c` of a merge, `git diff` during a merge (combine-diff.c, show_combined_header): after
+# `diff --cc <path>` (`diff --combined <path>` for -c) come `index <a>,<b>..<c>`, then - only if a parent's mode differs
+# from the result's - `mode <m>,<m>..<m>` | `new file mode <m>` | `deleted file mode <m>,<m>`, then `--- a/<path>`
+# (one per parent with --combined-all-paths) and `+++ b/<path>`, then `@@@ … @@@` hunks (n+1 `@` for n parents), or
+# `Binary files differ`. Every section of a stream is generated with its own number of parents' columns in the hunks.
+
+COMBINED_KINDS = ["cc_modified", "cc_mode", "cc_added", "cc_deleted", "cc_all_paths", "cc_mode_all_paths",
+                  "cc_mode_only", "cc_binary", "cc_mode_binary"]
+COMBINED_BODIES = [b for b in BODIES if not b.startswith(("<<<", "===", ">>>", "|||"))]
+
+
+def gen_combined_hunk(rng, nparents, max_lines=7, only=None):
+    """One `@@@` hunk of a combined diff with `nparents` parents: lines = [(prefix columns | None, body)]; prefix None
+    is the `\\ No newline at end of file` line (not a hunk line). `only`: '+' / '-' for an added / deleted file."""
+    n = rng.randint(1, max_lines)
+    lines = []
+    while len(lines) < n:
+        r = rng.random()
+        if only:
+            pre = only * nparents
+        elif r < 0.35:
+            pre = " " * nparents
+        else:
+            ch = "+" if r < 0.7 else "-"
+            pre = "".join(rng.choice([ch, ch, " "]) for _ in range(nparents))
+            if pre.strip(" ") == "":
+                pre = ch + pre[1:]
+        for _ in range(rng.randint(1, 2)):
+            lines.append((pre, rng.choice(COMBINED_BODIES)))
+    lines = lines[:n]
+    if rng.random() < 0.1:
+        lines.insert(rng.randint(1, len(lines)), (None, "\\ No newline at end of file"))
+    start = rng.choice([1, 1, 7, 50, 1200])
+    real = [(p, b) for p, b in lines if p is not None]
+    counts = [sum(1 for p, _ in real if p[i] == "-" or ("-" not in p and p[i] == " ")) for i in range(nparents)]
+    result = sum(1 for p, _ in real if "-" not in p)
+    frag = rng.choice(["", "", " fn main() {", " class Foo:", " @@ weird", " \tdef f():"])
+    ats = "@" * (nparents + 1)
+    header = ats + "".join(" -%d,%d" % (start, c) for c in counts) + " +%d,%d " % (start, result) + ats + frag
+    return dict(header=header, frag=frag, start=start, lines=lines)
+
+
+def gen_combined_file(rng, kind=None, nparents=None, word=None, paths=None):
+    """One file section of a combined diff. Returns dict(kind, nparents, old, new, lines, header_lines, hunks)."""
+    kind = kind or rng.choice(COMBINED_KINDS)
+    n = nparents or rng.choice([2, 2, 2, 3])
+    word = word or rng.choice(["--cc", "--cc", "--combined"])
+    p = rng.choice(paths or PATHS)
+    hashes = ["%07x" % rng.randrange(1, 16 ** 7) for _ in range(n + 1)]
+    f = dict(kind=kind, nparents=n, old=p, new=p, hunks=[], lines=[], word=word)
+    L = f["lines"]
+    L.append(f"diff {word} {p}")
+    result_mode = rng.choice(["100755", "100644"])
+    other = "100644" if result_mode == "100755" else "100755"
+    pm = [rng.choice([result_mode, other]) for _ in range(n)]
+    if all(m == result_mode for m in pm):
+        pm[rng.randrange(n)] = other
+    mode_line = "mode " + ",".join(pm) + ".." + result_mode
+    minus = [f"--- a/{p}"] * (n if "all_paths" in kind else 1)
+    only = None
+    if kind == "cc_added":
+        f["old"] = "/dev/null"
+        L += ["index " + ",".join(["0000000"] * n) + ".." + hashes[n], "new file mode " + result_mode, "--- /dev/null", f"+++ b/{p}"]
+        only = "+"
+    elif kind == "cc_deleted":
+        f["new"] = "/dev/null"
+        L += ["index " + ",".join(hashes[:n]) + "..0000000", "deleted file mode " + ",".join([result_mode] * n), f"--- a/{p}", "+++ /dev/null"]
+        only = "-"
+    else:
+        L.append("index " + ",".join(hashes[:n]) + ".." + hashes[n])
+        if "mode" in kind:
+            L.append(mode_line)
+        if "binary" in kind:
+            L.append("Binary files differ")
+        elif kind != "cc_mode_only":
+            L += minus + [f"+++ b/{p}"]
+    f["header_lines"] = list(L)
+    if kind not in ("cc_mode_only", "cc_binary", "cc_mode_binary"):
+        for _ in range(1 if only else rng.randint(1, 3)):
+            h = gen_combined_hunk(rng, n, only=only)
+            f["hunks"].append(h)
+            L.append(h["header"])
+            L += [b if pre is None else pre + b for pre, b in h["lines"]]
+    return f
+
+
+def gen_combined_sections(rng, nfiles=None, kinds=None, nparents=None, with_commit=None):
+    """A combined diff of several file sections (merge commit shown with --cc / -c, or `git diff` during a merge), each
+    with the header lines git emits there. Returns (lines, files). No conflict regions (see `gen_combined_diff`)."""
+    lines, files = [], []
+    if with_commit if with_commit is not None else rng.random() < 0.5:
+        c = gen_commit(rng)
+        lines += [c[0], "Merge: 1111111 2222222"] + c[1:]
+    for i in range(nfiles or rng.randint(1, 3)):
+        f = gen_combined_file(rng, kind=(kinds[i] if kinds else None), nparents=nparents)
+        f["first_line"] = len(lines)
+        lines += f["lines"]
+        files.append(f)
+    return lines, files
+
+
 def mutate_lines(rng, lines):
     """Structure-aware damage: delete / duplicate / swap / truncate lines, inject markers."""
     ls = list(lines)
